@@ -370,7 +370,18 @@ func (g *dgen) method(svc *spec.Service, idx int) *spec.Method {
 				}
 				g.feat("loc:path")
 			case LocQuery, LocHeader:
-				if t.Draw("arr-param", 4) == 0 {
+				if loc == LocQuery && t.Draw("map-param", 7) == 0 {
+					// a map in the query string: key[k]=v (values may repeat for array elements)
+					el := g.prim(loc)
+					for el.Type.Kind == spec.Bytes || el.Type.Kind == spec.Any {
+						el = g.prim(loc)
+					}
+					if t.Draw("map-param-array", 3) == 0 {
+						el = &spec.Attr{Type: &spec.Type{Kind: spec.Array, Elem: el}}
+					}
+					f = &spec.Attr{Type: &spec.Type{Kind: spec.Map, Key: &spec.Attr{Type: &spec.Type{Kind: spec.String}}, Elem: el}}
+					g.feat("loc:query-map")
+				} else if t.Draw("arr-param", 4) == 0 {
 					el := g.prim(loc)
 					f = &spec.Attr{Type: &spec.Type{Kind: spec.Array, Elem: el}}
 					f.Val = g.validation(spec.Array, loc)
@@ -704,6 +715,15 @@ func (g *dgen) security() {
 // requirements draws 1-3 alternative requirements of 1-2 schemes each.
 func (g *dgen) requirements() []*spec.Requirement {
 	t := g.t
+	if jwt, oa := g.schemeOfKind("jwt"), g.schemeOfKind("oauth2"); jwt != nil && oa != nil && g.chance("two-token-schemes", "security", 1, 4, 12) {
+		// both bearer-token schemes on one method, as alternatives or together
+		g.feat("security:two-token-schemes")
+		if t.Draw("two-token-together", 3) == 0 {
+			return []*spec.Requirement{{Schemes: []string{jwt.Name, oa.Name}}}
+		}
+		g.feat("security:alternatives")
+		return []*spec.Requirement{{Schemes: []string{jwt.Name}}, {Schemes: []string{oa.Name}, Scopes: oa.Scopes[:1]}}
+	}
 	n := 1 + t.Pick("nreq", 4, 2, 1)
 	var out []*spec.Requirement
 	for i := 0; i < n; i++ {
@@ -850,7 +870,7 @@ func (g *dgen) secure(svc *spec.Service, m *spec.Method, path *string) {
 				}
 				a := add(nm, sec, req)
 				authFree := !authTaken()
-				if other := g.tokenOnAuthorization(m, pt); other != nil && other != a && g.chance("shared-authorization", "security", 1, 3, 5) {
+				if other := g.tokenOnAuthorization(m, pt); other != nil && other != a && g.chance("shared-authorization", "security", 2, 4, 5) {
 					// two token schemes read the same Authorization header: the caller gives one
 					// credential and both callbacks receive it
 					m.Headers[a.Name] = "Authorization"
@@ -858,7 +878,7 @@ func (g *dgen) secure(svc *spec.Service, m *spec.Method, path *string) {
 					g.feat("security:shared-authorization")
 					continue
 				}
-				switch t.Pick("token-in", 2, 1, 1) {
+				switch t.Pick("token-in", 3, 1, 1) {
 				case 0:
 					if authFree {
 						m.Headers[a.Name] = "Authorization"
@@ -878,6 +898,15 @@ func (g *dgen) secure(svc *spec.Service, m *spec.Method, path *string) {
 	}
 }
 
+
+func (g *dgen) schemeOfKind(k string) *spec.Scheme {
+	for _, s := range g.d.Schemes {
+		if s.Kind == k {
+			return s
+		}
+	}
+	return nil
+}
 
 // tokenOnAuthorization returns the JWT/OAuth2 credential attribute mapped to the Authorization header, if any.
 func (g *dgen) tokenOnAuthorization(m *spec.Method, pt *spec.Type) *spec.Attr {
